@@ -967,3 +967,28 @@ example : hasTransaction (storeTx (fun _ => .none) yCo 11 40) [10, 11] 11 1000 =
   store_then_conflict _ yCo 11 40 [10, 11] 11 11 1000 (by decide) (by decide) (by simp) (by simp) (by decide) (by decide)
 
 end NeoModel.C07
+
+namespace NeoModel.C07
+open NeoModel NeoModel.Fees NeoModel.Admission NeoModel.Pack
+
+/-- **store_covers_every_conflicts_attribute.** The record writer of the model treats all Conflicts attributes alike: for
+EVERY position `i` in the list of hashes an on-chain transaction `y` names — first, second, third, … — a later
+transaction whose hash is the `i`-th named hash and that shares any signer with `y` is refused while `y`'s block is inside
+the traceability window. (`StoreAsTransaction` has to write the per-signer records under each named hash; seeded change
+C07-m7 wrote them for the first attribute only.) -/
+theorem store_covers_every_conflicts_attribute (lookup : Nat → Rec) (y : Tx) (index : Nat) (i : Nat) (h : Nat)
+    (signers : List Nat) (a height mtb : Nat)
+    (hi : (conflictHashes y)[i]? = some h) (hy : h ≠ y.hash) (hb : lookup h ≠ .block)
+    (ha : a ∈ signers) (hay : a ∈ accounts y) (ht : isTraceable index height mtb = true) :
+    hasTransaction (storeTx lookup y index h) signers height mtb = some .hasConflicts :=
+  store_then_conflict lookup y index h signers a height mtb hy (List.mem_of_getElem? hi) hb ha hay ht
+
+/-- a transaction naming three hashes: the one whose hash is the 2nd or the 3rd is refused just like the 1st. -/
+def y3 : Tx := { yCo with hash := 50, attrs := [.conflicts 61, .conflicts 62, .conflicts 63] }
+
+example : ∀ h ∈ [61, 62, 63], hasTransaction (storeTx (fun _ => .none) y3 11 h) [10, 11] 11 1000 = some .hasConflicts := by decide
+
+example : hasTransaction (storeTx (fun _ => .none) y3 11 63) [10, 11] 11 1000 = some .hasConflicts :=
+  store_covers_every_conflicts_attribute _ y3 11 2 63 [10, 11] 11 11 1000 rfl (by decide) (by simp) (by simp) (by decide) (by decide)
+
+end NeoModel.C07
